@@ -29,12 +29,13 @@ import (
 )
 
 type Case struct {
-	Atom      string `json:"atom"`      // failing operation
-	Form      string `json:"form"`      // statement form holding the failing expression
-	Placement string `json:"placement"` // where that statement lives
-	Depth     int    `json:"depth"`     // number of active calls between main and the failing function
-	CallForm  string `json:"call_form"` // statement form of the calls
-	Sentinel  string `json:"sentinel,omitempty"`
+	Atom      string    `json:"atom"`      // failing operation
+	Form      string    `json:"form"`      // statement form holding the failing expression
+	Placement string    `json:"placement"` // where that statement lives
+	Depth     int       `json:"depth"`     // number of active calls between main and the failing function
+	CallForm  string    `json:"call_form"` // statement form of the calls
+	Sentinel  string    `json:"sentinel,omitempty"`
+	Host      *hostCase `json:"host,omitempty"`
 }
 
 type fail struct{ sig, what string }
@@ -543,7 +544,10 @@ func main() {
 			_ = report.Recase(raw, &c)
 			var fails []fail
 			var obs string
-			if c.Sentinel != "" {
+			if c.Host != nil {
+				fails, obs = runHostCase(*c.Host)
+				fmt.Printf("host error case %+v\n", *c.Host)
+			} else if c.Sentinel != "" {
 				fails, obs = runSentinel(c.Sentinel)
 				fmt.Printf("sentinel case %s\n", c.Sentinel)
 			} else {
@@ -617,6 +621,18 @@ func main() {
 			r.Violation(f.sig, f.what, Case{Sentinel: s})
 		}
 	}
+	hcs := hostCases()
+	for _, hc := range hcs {
+		hc := hc
+		fails, obs := runHostCase(hc)
+		atomic.AddInt64(&applicable, 1)
+		atomic.AddInt64(&validated, 1)
+		r.Outcome(obs)
+		for _, f := range fails {
+			r.Violation(f.sig, f.what, Case{Host: &hc})
+		}
+	}
+	r.Set("host_error_grid", map[string]interface{}{"kinds": hostErrKinds(), "sites": len(hostSites), "cases": len(hcs)})
 	r.Set("atoms", allAtoms)
 	r.Set("forms", forms)
 	r.Set("placements", placements)
